@@ -23,6 +23,21 @@ const (
 	mutCountVisits       // :count counts visited elements instead of matches
 	mutDupsKeepFirst     // remove-duplicates keeps the first instead of the last
 	mutReduceFromEndArgs // reduce :from-end calls (f acc x) instead of (f x acc)
+	mutTailAsElement     // maplist/mapl/mapcon hand the element, not the tail, to the function
+	mutMapFirstLength    // map/mapcar/mapc.. run to the length of the first sequence (missing elements are nil)
+	mutMapcanKeepsNil    // mapcan keeps a nil result as an element
+	mutXorKeyFirstOnly   // set-exclusive-or applies :key to list-1 only
+	mutXorConsumes       // set-exclusive-or: an element of list-2 matches at most one element of list-1
+	mutAdjoinIgnoresTest // adjoin/pushnew compare the elements themselves whatever :test and :key say
+	mutAdjoinTestSwapped // adjoin/pushnew call the test with (element item)
+	mutSelfForward       // replace on one object copies forward element by element
+	mutEltEndIsNil       // elt at index = length answers nil
+	mutSubseqClamps      // subseq clamps an end beyond the length
+	mutMapIntoClears     // map-into sets the elements it does not reach to nil
+	mutNreverseStorage   // nreverse reverses the whole storage of a fill-pointer vector
+	mutMakeSeqOffByOne   // make-sequence makes one element too many
+	mutQuant3First2      // every/some.. over three sequences look at the first two only
+	mutQuantBehindFill   // every/some.. visit the elements behind a fill pointer
 	mutLast
 )
 
@@ -36,18 +51,37 @@ var mutNames = map[int]string{
 	mutCountVisits:       ":count counts visited elements, not matches (substitute family)",
 	mutDupsKeepFirst:     "remove-duplicates keeps the first duplicate without :from-end",
 	mutReduceFromEndArgs: "reduce :from-end passes the accumulator first",
+	mutTailAsElement:     "maplist/mapcon pass the element instead of the tail",
+	mutMapFirstLength:    "map stops at the length of the first sequence instead of the shortest",
+	mutMapcanKeepsNil:    "mapcan keeps a nil result as an element",
+	mutXorKeyFirstOnly:   "set-exclusive-or ignores :key on the second list",
+	mutXorConsumes:       "set-exclusive-or lets an element of list-2 match only one element of list-1",
+	mutAdjoinIgnoresTest: "pushnew tests with identity whatever :test/:key say",
+	mutAdjoinTestSwapped: "adjoin calls :test with (element item)",
+	mutSelfForward:       "replace on one object copies forward without a temporary copy",
+	mutEltEndIsNil:       "elt at index = length returns nil instead of signalling",
+	mutSubseqClamps:      "subseq clamps an end beyond the length instead of signalling",
+	mutMapIntoClears:     "map-into sets the elements beyond the shortest source to nil",
+	mutNreverseStorage:   "nreverse reverses the storage behind the fill pointer too",
+	mutMakeSeqOffByOne:   "make-sequence makes one element too many",
+	mutQuant3First2:      "the quantifiers over three sequences ignore the third",
+	mutQuantBehindFill:   "the quantifiers visit the elements behind a fill pointer",
 }
 
 // want is what the statement demands of one call.
 type want struct {
-	show   string                                // exact rendering (lisp.Show) demanded, when check == nil and truthy == nil
-	truthy *bool                                 // only the truth value is demanded
-	check  func(got string, dec *decoded) string // custom acceptance: "" = accepted, else the reason
-	orErr  bool                                  // a Lisp error is acceptable as well (undocumented keyword)
-	desc   string                                // human description of what is demanded
+	show    string                                // exact rendering (lisp.Show) demanded, when check == nil and truthy == nil
+	truthy  *bool                                 // only the truth value is demanded
+	check   func(got string, dec *decoded) string // custom acceptance: "" = accepted, else the reason
+	orErr   bool                                  // a Lisp error is acceptable as well (undocumented keyword)
+	mustErr bool                                  // a Lisp error is demanded (out-of-range index)
+	desc    string                                // human description of what is demanded
 }
 
 func exact(s string) want { return want{show: s, desc: s} }
+func errWant(why string) want {
+	return want{mustErr: true, desc: "an error (" + why + ")"}
+}
 func truth(b bool) want {
 	return want{truthy: &b, desc: map[bool]string{true: "a true value", false: "nil"}[b]}
 }
@@ -165,6 +199,9 @@ func expect(c *call, mut int) want {
 		for i, e := range els {
 			out[len(els)-1-i] = e
 		}
+		if c.typs[0] == 'F' {
+			return expectRevFill(c, out, mut)
+		}
 		return exact(showSeq(c.typs[0], c.shape(0), out))
 	case famTwo:
 		return expectTwo(c, mut)
@@ -173,6 +210,12 @@ func expect(c *call, mut int) want {
 		e := len(els)
 		if c.subEnd != "" && c.subEnd != "nil" {
 			e, _ = strconv.Atoi(c.subEnd)
+		}
+		if mut == mutSubseqClamps && len(els) < e {
+			e = len(els)
+		}
+		if c.start < 0 || len(els) < c.start || len(els) < e || e < c.start {
+			return errWant("the bounding indices are not inside the sequence")
 		}
 		return exact(showSeq(c.typs[0], c.shape(0), els[c.start:e]))
 	case famFill:
@@ -194,6 +237,25 @@ func expect(c *call, mut int) want {
 		return expectMap(c, mut)
 	case famReduce:
 		return expectReduce(c, mut)
+	case famMapL:
+		return expectMapL(c, mut)
+	case famMapInto:
+		return expectMapInto(c, mut)
+	case famAdjoin:
+		return expectAdjoin(c, mut)
+	case famSelf:
+		return expectSelf(c, mut)
+	case famMake:
+		return expectMake(c, mut)
+	case famElt:
+		els := c.els(0)
+		switch {
+		case 0 <= c.start && c.start < len(els):
+			return exact(showEl(c.shape(0), els[c.start]))
+		case mut == mutEltEndIsNil && c.start == len(els):
+			return exact("nil")
+		}
+		return errWant("the index is not inside the sequence")
 	case famConcat:
 		var b []string
 		for i := range c.seqs {
@@ -524,6 +586,9 @@ func expectSet(c *call, mut int) want {
 		}
 		return truth(true)
 	}
+	if c.fn == "set-exclusive-or" || c.fn == "nset-exclusive-or" {
+		return expectXor(c, mut)
+	}
 	// which keys must be present, and from which pool the elements may come
 	var pool []el
 	need := map[rune]bool{}
@@ -662,16 +727,36 @@ func expectQuant(c *call, mut int) want {
 			n = len(c.seqs[i])
 		}
 	}
+	e0 := c.els(0)
+	if mut == mutQuantBehindFill && c.typs[0] == 'F' {
+		e0 = append(e0, hiddenEls...)
+		n = len(e0)
+	}
 	holds := func(i int) bool {
 		switch c.pred {
+		case "hid":
+			return e0[i].ch == 'x'
 		case "eq", "gt":
-			return c.matchPred(c.els(0)[i].ch)
+			return c.matchPred(e0[i].ch)
 		case "eq2":
 			return c.els(0)[i].ch == c.els(1)[i].ch
 		case "lt2":
 			return c.els(0)[i].ch < c.els(1)[i].ch
+		case "eq3":
+			if mut == mutQuant3First2 {
+				return c.els(0)[i].ch == c.els(1)[i].ch
+			}
+			return c.els(0)[i].ch == c.els(1)[i].ch && c.els(1)[i].ch == c.els(2)[i].ch
+		case "lt13":
+			if mut == mutQuant3First2 {
+				return c.els(0)[i].ch < c.els(1)[i].ch
+			}
+			return c.els(0)[i].ch < c.els(2)[i].ch
 		}
 		panic("bad quantifier predicate")
+	}
+	if mut == mutQuant3First2 && len(c.seqs) == 3 {
+		n = min(len(c.seqs[0]), len(c.seqs[1]))
 	}
 	all, any := true, false
 	for i := 0; i < n; i++ {
@@ -701,9 +786,36 @@ func expectMap(c *call, mut int) want {
 			n = len(c.seqs[i])
 		}
 	}
+	elAt := func(j, i int) string {
+		if len(c.seqs[j]) <= i {
+			return "nil"
+		}
+		return showEl(c.shape(j), c.els(j)[i])
+	}
+	if mut == mutMapFirstLength {
+		n = len(c.seqs[0])
+	}
+	tuple := func(i int) string {
+		var t []string
+		for j := range c.seqs {
+			t = append(t, elAt(j, i))
+		}
+		return "(" + strings.Join(t, " ") + ")"
+	}
+	if c.pred == "acc" { // map nil: the calls are recorded, latest first
+		var acc []string
+		for i := n - 1; 0 <= i; i-- {
+			acc = append(acc, tuple(i))
+		}
+		return exact("(nil " + showList("list", acc, c, 0) + ")")
+	}
 	var parts []string
 	for i := 0; i < n; i++ {
 		switch c.pred {
+		case "tuple":
+			parts = append(parts, tuple(i))
+		case "last":
+			parts = append(parts, elAt(len(c.seqs)-1, i))
 		case "wrap":
 			parts = append(parts, "("+showEl(c.shape(0), c.els(0)[i])+")")
 		case "up":
@@ -711,9 +823,9 @@ func expectMap(c *call, mut int) want {
 			e.ch = unicode.ToUpper(e.ch)
 			parts = append(parts, showEl('c', e))
 		case "pair2":
-			parts = append(parts, "("+showEl(c.shape(0), c.els(0)[i])+" "+showEl(c.shape(1), c.els(1)[i])+")")
+			parts = append(parts, tuple(i))
 		case "second2":
-			parts = append(parts, showEl(c.shape(1), c.els(1)[i]))
+			parts = append(parts, elAt(1, i))
 		}
 	}
 	if c.fn == "map" && c.rtype == "nil" {
@@ -781,6 +893,9 @@ func normTyp(t byte) byte {
 	if t == 'N' {
 		return 'L'
 	}
+	if t == 'F' {
+		return 'V'
+	}
 	return t
 }
 
@@ -792,8 +907,321 @@ func typName(t byte) string {
 		return "nil"
 	case 'V':
 		return "vector"
+	case 'F':
+		return "vector-with-fill-pointer"
 	case 'S':
 		return "string"
 	}
 	return "?"
+}
+
+// ---------------------------------------------------------------- the list mapping functions
+
+// expectMapL: mapc mapcan mapcon mapl maplist. The function is applied to the successive elements (mapc mapcan)
+// or the successive tails (mapl maplist mapcon) of the lists until the shortest list is exhausted; mapc and mapl
+// return the first list, maplist the list of the results, mapcan and mapcon the concatenation of the results.
+func expectMapL(c *call, mut int) want {
+	n := -1
+	for i := range c.seqs {
+		if n < 0 || len(c.seqs[i]) < n {
+			n = len(c.seqs[i])
+		}
+	}
+	if mut == mutMapFirstLength {
+		n = len(c.seqs[0])
+	}
+	byTail := c.fn == "mapl" || c.fn == "maplist" || c.fn == "mapcon"
+	if mut == mutTailAsElement {
+		byTail = false
+	}
+	arg := func(j, i int) string {
+		els := c.els(j)
+		if len(els) <= i {
+			return "nil"
+		}
+		if byTail {
+			return showSeq('L', c.shape(j), els[i:])
+		}
+		return showEl(c.shape(j), els[i])
+	}
+	args := func(i int) []string {
+		var t []string
+		for j := range c.seqs {
+			t = append(t, arg(j, i))
+		}
+		return t
+	}
+	list := func(parts []string) string { return showList("list", parts, c, 0) }
+	first := showSeq('L', c.shape(0), c.els(0))
+	switch c.fn {
+	case "mapc", "mapl":
+		var acc []string
+		for i := n - 1; 0 <= i; i-- {
+			acc = append(acc, list(args(i)))
+		}
+		return exact("(" + first + " " + list(acc) + ")")
+	case "maplist":
+		var parts []string
+		for i := 0; i < n; i++ {
+			if c.pred == "self" {
+				parts = append(parts, arg(0, i))
+			} else {
+				parts = append(parts, list(args(i)))
+			}
+		}
+		return exact(list(parts))
+	case "mapcan", "mapcon":
+		var parts []string
+		for i := 0; i < n; i++ {
+			head := c.els(0)[i]
+			switch c.pred {
+			case "tuple":
+				parts = append(parts, args(i)...)
+			case "dup":
+				parts = append(parts, arg(0, i), arg(0, i))
+			case "copy":
+				if !byTail {
+					parts = append(parts, arg(0, i))
+					break
+				}
+				for _, e := range c.els(0)[i:] {
+					parts = append(parts, showEl(c.shape(0), e))
+				}
+			case "filt":
+				if head.ch != 'b' {
+					parts = append(parts, showEl(c.shape(0), head))
+				} else if mut == mutMapcanKeepsNil {
+					parts = append(parts, "nil")
+				}
+			default:
+				panic("bad list-mapping function " + c.pred)
+			}
+		}
+		return exact(list(parts))
+	}
+	panic("no list-mapping reference for " + c.fn)
+}
+
+// expectMapInto: the result sequence is sequence 0; its first min(length, shortest source) elements are replaced
+// by the results, the others stay; the (same) result sequence is returned.
+func expectMapInto(c *call, mut int) want {
+	r := c.els(0)
+	n := len(r)
+	for i := 1; i < len(c.seqs); i++ {
+		if len(c.seqs[i]) < n {
+			n = len(c.seqs[i])
+		}
+	}
+	var parts []string
+	for i := range r {
+		switch {
+		case i < n && len(c.seqs) == 1:
+			parts = append(parts, "z")
+		case i < n:
+			var t []string
+			for j := 1; j < len(c.seqs); j++ {
+				t = append(t, showEl(c.shape(j), c.els(j)[i]))
+			}
+			parts = append(parts, "("+strings.Join(t, " ")+")")
+		case mut == mutMapIntoClears:
+			parts = append(parts, "nil")
+		default:
+			parts = append(parts, showEl(c.shape(0), r[i]))
+		}
+	}
+	rt := "list"
+	if c.typs[0] == 'V' {
+		rt = "vector"
+	}
+	res := showList(rt, parts, c, 0)
+	w := exact("(" + res + " " + res + ")")
+	if strings.ContainsRune(c.typs, 'V') {
+		// slip documents map-into for lists only (FuncDoc: result-sequence list, lists): a vector may be rejected
+		w.orErr = true
+	}
+	return w
+}
+
+// adjoinItem: the item of an adjoin / pushnew call. With :key car it is a pair no element is equal to as a whole;
+// as a whole pair (no :key) it is equal to the element at index 1 when the letters agree.
+func (c *call) adjoinItem() el {
+	e := el{ch: rune(c.item[0])}
+	if c.key {
+		e.id = 77
+	} else if c.pred == "pairs" {
+		e.id = 1
+	}
+	return e
+}
+
+// expectAdjoin: the item is added in front unless some element satisfies the test, which is called with the
+// (keyed) item first and the (keyed) element second.
+func expectAdjoin(c *call, mut int) want {
+	els := c.els(0)
+	sh := c.shape(0)
+	item := c.adjoinItem()
+	whole := sh == 'p' && !c.key
+	same := func(e el) bool {
+		if whole {
+			return e == item
+		}
+		return e.ch == item.ch
+	}
+	matches := func(e el) bool {
+		if mut == mutAdjoinIgnoresTest {
+			return e == item || sh != 'p' && e.ch == item.ch
+		}
+		a, b := item.ch, e.ch
+		if mut == mutAdjoinTestSwapped {
+			a, b = b, a
+		}
+		switch c.test {
+		case "lam":
+			return a < b
+		case "notlam":
+			return !(a < b)
+		case "not":
+			return !same(e)
+		}
+		return same(e)
+	}
+	present := false
+	for _, e := range els {
+		present = present || matches(e)
+	}
+	old := showSeq('L', sh, els)
+	added := showSeq('L', sh, append([]el{item}, els...))
+	render := func(l string) string {
+		if c.fn == "pushnew" {
+			return "(" + l + " " + l + ")" // the value and the place afterwards
+		}
+		return l
+	}
+	res := added
+	if present {
+		res = old
+	}
+	if c.fn == "pushnew" && whole && c.test == "" && mut == mutNone {
+		// pushnew does not document its default test: eql (the language) and equal (slip's documented default
+		// elsewhere) differ on a pair that is equal to an element, so both answers are accepted
+		a, b := render(old), render(added)
+		w := want{show: render(res), desc: a + " or " + b}
+		w.check = func(got string, _ *decoded) string {
+			if got == a || got == b {
+				return ""
+			}
+			return "neither the old list nor the list with the item in front"
+		}
+		return w
+	}
+	return exact(render(res))
+}
+
+// expectXor: the elements of list-1 and list-2 that appear in no matching pair (one element of each list, the
+// test called with the keyed element of list-1 first), in any order.
+func expectXor(c *call, mut int) want {
+	a, b := c.els(0), c.els(1)
+	sh := c.shape(0)
+	pair := func(x, y el) bool {
+		if mut == mutXorKeyFirstOnly && c.key {
+			return false // a key never equals (or orders against) a whole pair
+		}
+		return c.match2(x, y, mutNone)
+	}
+	m1, m2 := make([]bool, len(a)), make([]bool, len(b))
+	for i, x := range a {
+		for j, y := range b {
+			if mut == mutXorConsumes && m2[j] {
+				continue
+			}
+			if pair(x, y) {
+				m1[i], m2[j] = true, true
+			}
+		}
+	}
+	var exp []el
+	for i, x := range a {
+		if !m1[i] {
+			exp = append(exp, x)
+		}
+	}
+	for j, y := range b {
+		if !m2[j] {
+			exp = append(exp, y)
+		}
+	}
+	w := want{show: showSeq('L', sh, exp), desc: "the elements that appear in no matching pair (any order): " + showSeq('L', sh, exp)}
+	w.check = func(got string, dec *decoded) string {
+		if dec == nil || dec.typ != 'L' {
+			return "result is not a list"
+		}
+		if !sameMultiset(dec.els, exp, sh) {
+			return "wrong elements"
+		}
+		return ""
+	}
+	return w
+}
+
+// expectSelf: replace with the same object as target and source: as if the source region were copied first.
+func expectSelf(c *call, mut int) want {
+	a := c.els(0)
+	s1, e1 := c.bounds(len(a), mutNone)
+	s2, e2 := c.bounds2(len(a))
+	out := append([]el(nil), a...)
+	src := append([]el(nil), a[s2:e2]...)
+	for i := 0; s1+i < e1 && i < len(src); i++ {
+		if mut == mutSelfForward {
+			out[s1+i] = out[s2+i]
+		} else {
+			out[s1+i] = src[i]
+		}
+	}
+	return exact(showSeq(c.typs[0], c.shape(0), out))
+}
+
+// expectMake: make-sequence and copy-seq.
+func expectMake(c *call, mut int) want {
+	if c.fn == "copy-seq" {
+		els := c.els(0)
+		typ, sh := c.typs[0], c.shape(0)
+		if !c.copyMutates() {
+			return exact(showSeq(typ, sh, els))
+		}
+		cp := append([]el(nil), els...)
+		cp[0] = newEl
+		return exact("(" + showSeq(typ, sh, cp) + " " + showSeq(typ, sh, els) + ")")
+	}
+	n := c.start
+	if mut == mutMakeSeqOffByOne {
+		n++
+	}
+	if !c.init {
+		return exact("(" + strconv.Itoa(n) + " t)")
+	}
+	var parts []string
+	for i := 0; i < n; i++ {
+		parts = append(parts, showEl(c.shape(0), newEl))
+	}
+	return exact(showList(c.rtype, parts, c, 0))
+}
+
+// expectRevFill: reverse / nreverse of a vector with a fill pointer: the active elements reversed; the elements
+// behind the fill pointer stay, and reverse leaves its argument alone.
+func expectRevFill(c *call, rev []el, mut int) want {
+	sh := c.shape(0)
+	hidden := hiddenEls
+	if mut == mutNreverseStorage && c.fn == "nreverse" {
+		full := append(append([]el(nil), c.els(0)...), hiddenEls...)
+		for i, j := 0, len(full)-1; i < j; i, j = i+1, j-1 {
+			full[i], full[j] = full[j], full[i]
+		}
+		rev, hidden = full[:len(rev)], full[len(rev):]
+	}
+	parts := []string{showSeq('V', sh, rev)}
+	if c.fn == "reverse" {
+		parts = append(parts, showSeq('V', sh, c.els(0)))
+	}
+	parts = append(parts, showEl(sh, hidden[0]), showEl(sh, hidden[1]))
+	return exact("(" + strings.Join(parts, " ") + ")")
 }
